@@ -7,7 +7,8 @@ fail=0
 for d in seeded/*/; do
   name=$(basename "$d")
   case "$name" in *"$filter"*) ;; *) continue;; esac
-  prop=$(python3 -c "import json;print(json.load(open('$d/meta.json'))['property'])")
+  # the check that reports it: the first entry of detected_by_checks (normally its own property)
+  prop=$(python3 -c "import json;m=json.load(open('$d/meta.json'));print((m.get('detected_by_checks') or [m['property']])[0])")
   if [ -n "$(git -C /repo status --short)" ]; then echo "/repo not clean"; exit 2; fi
   if ! git -C /repo apply "/verif/$d/patch.diff" 2>/dev/null; then echo "$name: PATCH DOES NOT APPLY"; fail=1; continue; fi
   cp evidence/$prop.json .build/try/$prop.evidence.bak 2>/dev/null
